@@ -44,6 +44,7 @@ type C20Body struct {
 	Mix     []string `json:"mix"` // enabled operation kinds
 	Seed    uint64   `json:"sched_seed"`
 	Sched   []int    `json:"sched,omitempty"`
+	PCT     int      `json:"pct"` // 0 = random walk, d>0 = priority-based strategy of depth d
 	YieldOps []string `json:"yield_ops,omitempty"`
 	Crash    *c21Crash `json:"crash,omitempty"` // C21: replay exactly this crash image
 }
@@ -53,6 +54,7 @@ var c20Kinds = []string{"commit", "commitws", "ff", "sethead", "tag", "delete", 
 func (h C20) Generate(seed uint64, tier string) *core.Scenario {
 	r := core.NewRand(seed)
 	b := C20Body{Seed: r.Uint64()}
+	b.PCT = []int{0, 0, 2, 3, 4, 5}[r.Intn(6)]
 	if r.Chance(2, 3) {
 		b.Mode = "shared"
 		b.Store = []string{"journal", "local"}[r.Intn(2)]
@@ -335,6 +337,7 @@ func (h C20) Execute(t *testing.T, sc *core.Scenario) *core.Result {
 
 	ch := core.NewChooser(b.Seed, b.Sched)
 	s := core.NewSched(ch)
+	s.PCTDepth = b.PCT
 	s.KeepTrace = len(b.Sched) > 0
 	s.OnRelease = func(t *core.Task) { sos.SetActor(t.Actor) }
 
